@@ -72,6 +72,10 @@ def jobs(tier):
                        bound="%s 2x2, through + short@1 + open@1 + two unknown reflects on port 2 (one equation short); values symbolic; "
                              "linear kernels by assumed contract" % t,
                        timeout=300, cbmc_flags=["--slice-formula"]))
+    J.append(V.Job("refused_unknown.T8_2x2", H, "h_refused_unknown", BASE + ["vnacal_make_unknown_parameter.c", "vnacal_delete_parameter.c"],
+                   defines=CUT + ["-DCAL_TYPE=VNACAL_T8", "-DCAL_ROWS=2", "-DCAL_COLS=2"], unwind=14, union_struct=True, kind="bounded",
+                   functions=["_vnacal_new_add_common", "_vnacal_new_get_parameter", "vnacal_new_add_double_reflect_m"],
+                   bound="T8 2x2, double reflect with a valid unknown first parameter and an invalid second handle", timeout=200))
     tsrcs = sorted(set(srcs + ["vnacal_make_unknown_parameter.c", "vnacal_delete_parameter.c"]))
     for t in (("VNACAL_T8",) if tier == "quick" else ("VNACAL_T8", "VNACAL_U8", "VNACAL_TE10", "VNACAL_UE10")):
         for v in (0, 1, 2):
